@@ -138,6 +138,9 @@ func (g *genState) aimedAddrs(n int) [][]byte {
 	for _, i := range perm[:n] {
 		out = append(out, g.aimKeypers[i].Bytes())
 	}
+	if len(out) >= 2 && g.r.Chance(8) { // one address twice among at least two different ones
+		out = append(out, out[g.r.Intn(len(out))])
+	}
 	return out
 }
 
@@ -455,6 +458,31 @@ func (g *genState) scriptDuplicateKeyper() {
 	g.script = append(g.script, &TxSpec{Signer: g.signerOf(a), Chain: g.chain, Nonce: g.freshNonce(), P: Payload{Kind: "bs", A: act + 1}})
 }
 
+// scriptRepeatedAddress: key generation messages of a keyper of the newest eon whose address list names one
+// address twice among others (accusation, apology, evaluations)
+func (g *genState) scriptRepeatedAddress() {
+	if g.aim == nil || len(g.aim.App.DKGMap) == 0 {
+		return
+	}
+	e := g.aim.App.EONCounter
+	d, ok := g.aim.App.DKGMap[e]
+	if !ok || len(d.Config.Keypers) < 3 {
+		return
+	}
+	ks := d.Config.Keypers
+	perm := g.r.Perm(len(ks))
+	sender, a, b := ks[perm[0]], ks[perm[1]], ks[perm[2]]
+	lists := [][][]byte{{a.Bytes(), b.Bytes(), a.Bytes()}, {a.Bytes(), a.Bytes(), b.Bytes()}, {b.Bytes(), a.Bytes(), b.Bytes(), a.Bytes()}}
+	l := lists[g.r.Intn(len(lists))]
+	seq := [][]byte{}
+	for range l {
+		seq = append(seq, []byte{byte(1 + g.r.Intn(200))})
+	}
+	for _, p := range []Payload{{Kind: "ac", A: e, Addrs: l}, {Kind: "ap", A: e, Addrs: l, Seq: seq}, {Kind: "pe", A: e, Addrs: l, Seq: seq}} {
+		g.script = append(g.script, &TxSpec{Signer: g.signerOf(sender), Chain: g.chain, Nonce: g.freshNonce(), P: p})
+	}
+}
+
 // scriptBurst: one keyper fills a block with block-seen reports of increasing numbers (each changes the state)
 func (g *genState) scriptBurst(n int) {
 	if g.aim == nil {
@@ -580,6 +608,8 @@ func GenHistory(r *hx.Rand, u *Universe, p GenParams) []*Op {
 				g.scriptBurst(p.TxPerBlock)
 			case k < 36:
 				g.scriptDuplicateKeyper()
+			case k < 42:
+				g.scriptRepeatedAddress()
 			}
 		}
 		ntx := r.Intn(p.TxPerBlock + 1)
